@@ -46,6 +46,11 @@ IORA_GMAP1(iora_rmmap, SessionId, ReadMode_t, 0)                           /* re
 IORA_GMAP1(iora_rbmap, SessionId, SyncReceiveBuffer *, (SyncReceiveBuffer *)0)   /* receiveBuffers */
 IORA_GMAP1(iora_pcmap, SessionId, SyncConnectOp *, (SyncConnectOp *)0)           /* pendingConnects */
 
+/* m.erase(x): unordered_map::erase is overloaded on iterator / key; the C11 _Generic selection keeps the choice the C++ compiler makes */
+#define iora_rmmap_erase(m, x) _Generic((x), iora_rmmap_iter: iora_rmmap_erase_it, default: iora_rmmap_erase_key)((m), (x))
+#define iora_rbmap_erase(m, x) _Generic((x), iora_rbmap_iter: iora_rbmap_erase_it, default: iora_rbmap_erase_key)((m), (x))
+#define iora_pcmap_erase(m, x) _Generic((x), iora_pcmap_iter: iora_pcmap_erase_it, default: iora_pcmap_erase_key)((m), (x))
+
 /* ghost engine (detail::EngineBase behind _impl->engine): records the commands Transport issues */
 typedef struct
 {
